@@ -16,6 +16,12 @@ package cluster
 //     5 s — before peers that joined later: those must still get their request). Rows for the node itself, for inactive / removed / oddly
 //     spelled states and for other clusters point at LIVE recorders, so a request that must not
 //     be sent is seen.
+//   - stream "burst": the same cache is purged several times in a row while a peer ("gate") SITS on the
+//     request the first purge sent it, so that the later purges are issued while the first broadcast
+//     is still in progress (explicit gate, no sleeping: the harness waits until the first broadcast
+//     is parked at the gated peer, issues the remaining purges, then opens the gate). Every purge
+//     must be announced on its own: each active peer must RECEIVE a flush after each purge was issued
+//     (the peers the first broadcast had already served may have reloaded the cache in between).
 //   - every recorded request is then driven, unchanged (all headers and the body as sent), through
 //     a real router.Router carrying the flush route exactly as commands/server.go declares it, into
 //     the real FlushCacheHandler of the node acting as that peer: it must be answered 200 and the
@@ -71,7 +77,7 @@ type c29Row struct {
 	ID     int    `json:"id"`
 	Name   int    `json:"name"`   // index into c29Names (1..)
 	State  string `json:"state"`  // text of the state column
-	Beh    string `json:"beh"`    // ok | 500 | 401 | hangup | dead | hold<ms> (answers 200 after <ms> milliseconds)
+	Beh    string `json:"beh"`    // ok | 500 | 401 | hangup | dead | hold<ms> (answers 200 after <ms> milliseconds) | gate (sits on the request while a burst is being issued)
 	Joined int    `json:"joined"` // ordering key for joined_at
 }
 
@@ -86,7 +92,8 @@ type c29FlushSpec struct {
 }
 
 type c29Op struct {
-	Kind  string        `json:"kind"` // purge | local | all | flip | flush
+	Kind  string        `json:"kind"`        // purge | local | all | flip | flush | burst
+	N     int           `json:"n,omitempty"` // burst: number of Purge calls of the same cache
 	Cache int           `json:"cache,omitempty"`
 	Row   int           `json:"row,omitempty"`   // flip: index into Rows; purge: Row%4 == 3 → the cache is NOT populated on the origin
 	State string        `json:"state,omitempty"` // flip: new state text
@@ -113,6 +120,7 @@ type c29Rec struct {
 	CT   string
 	Hdr  http.Header
 	Body []byte
+	Seq  int64 // arrival number at the peers (1, 2, …): orders arrivals against the moments purges were issued
 }
 
 // ---------------------------------------------------------------- recording peers
@@ -128,7 +136,9 @@ var (
 	c29mu    sync.Mutex
 	c29recs  []c29Rec
 	c29peers []*c29Peer
-	c29dead  int // a port nobody listens on
+	c29dead  int           // a port nobody listens on
+	c29seq   int64         // arrivals so far (under c29mu)
+	c29gate  chan struct{} // non-nil while a burst is being issued: "gate" peers sit on their requests until it is closed
 
 	c29HookStarted  atomic.Int64
 	c29HookFinished atomic.Int64
@@ -142,11 +152,27 @@ func (p *c29Peer) ServeHTTP(w http.ResponseWriter, r *http.Request) {
 	body, _ := io.ReadAll(r.Body)
 
 	c29mu.Lock()
+	c29seq++
 	c29recs = append(c29recs, c29Rec{Peer: p.idx, Meth: r.Method, Path: r.URL.Path, Auth: r.Header.Get("Authorization"),
-		CT: r.Header.Get("Content-Type"), Hdr: r.Header.Clone(), Body: body})
+		CT: r.Header.Get("Content-Type"), Hdr: r.Header.Clone(), Body: body, Seq: c29seq})
+	gate := c29gate
 	c29mu.Unlock()
 
 	beh := p.beh.Load().(string)
+
+	if beh == "gate" {
+		// the peer has the request (recorded above) and sits on it until the harness has issued the
+		// rest of the burst — far inside the sender's 5 s; the cap only guards against a stuck harness
+		if gate != nil {
+			select {
+			case <-gate:
+			case <-r.Context().Done():
+			case <-time.After(4 * time.Second):
+			}
+		}
+
+		beh = "ok"
+	}
 
 	if ms, ok := c29HoldMs(beh); ok {
 		// a slow peer: it has the request (recorded above) and sits on it. The real time is spent
@@ -188,6 +214,49 @@ func c29Take() []c29Rec {
 	c29recs = nil
 
 	return r
+}
+
+// c29SeqNow: the number of requests that have arrived at the peers so far.
+func c29SeqNow() int64 {
+	c29mu.Lock()
+	defer c29mu.Unlock()
+
+	return c29seq
+}
+
+func c29SetGate(g chan struct{}) {
+	c29mu.Lock()
+	c29gate = g
+	c29mu.Unlock()
+}
+
+// c29WaitParked waits (at most `limit`) until peer `idx` has recorded `want` requests since the last
+// c29Take. It only SHAPES the interleaving (the next purge is issued while the broadcasts so far
+// are parked at the gated peer); no verdict depends on whether it timed out.
+func c29WaitParked(idx, want int, limit time.Duration) bool {
+	deadline := time.Now().Add(limit)
+
+	for {
+		n := 0
+
+		c29mu.Lock()
+		for _, rc := range c29recs {
+			if rc.Peer == idx {
+				n++
+			}
+		}
+		c29mu.Unlock()
+
+		if n >= want {
+			return true
+		}
+
+		if time.Now().After(deadline) {
+			return false
+		}
+
+		time.Sleep(50 * time.Microsecond)
+	}
 }
 
 // c29Hook wraps the hook that cluster.Initialize registered, so that the harness can tell when
@@ -578,13 +647,12 @@ func (cs *c29Case) peerRows() int {
 	return n
 }
 
-// judge applies the model-free oracle to the requests observed for ONE purge of cache c.
-func (e *c29Env) judge(cs *c29Case, c int, notify bool, ms []c29Msg) {
-	live, _, silent := cs.expectedDest(notify)
-	count := map[int]int{}
+// judgeEach applies the per-request part of the model-free oracle to the requests observed for
+// purges of cache c (whom a request may go to, and what it must look like).
+func (e *c29Env) judgeEach(cs *c29Case, c int, notify bool, ms []c29Msg) {
+	_, _, silent := cs.expectedDest(notify)
 
 	for _, m := range ms {
-		count[m.Dest]++
 
 		row := cs.Rows[e.rowIdx[m.Dest]]
 
@@ -605,6 +673,18 @@ func (e *c29Env) judge(cs *c29Case, c int, notify bool, ms []c29Msg) {
 				cs, fmt.Sprintf("%s %s auth-of=%s body=%s", m.Raw.Meth, m.Raw.Path, m.Tok, m.Raw.Body), fmt.Sprintf("cache=%d sender=n%d hops=1", c, cs.Self))
 		}
 	}
+}
+
+// judge applies the model-free oracle to the requests observed for ONE purge of cache c.
+func (e *c29Env) judge(cs *c29Case, c int, notify bool, ms []c29Msg) {
+	live, _, silent := cs.expectedDest(notify)
+	count := map[int]int{}
+
+	for _, m := range ms {
+		count[m.Dest]++
+	}
+
+	e.judgeEach(cs, c, notify, ms)
 
 	if len(ms) > cs.peerRows() {
 		e.fail("unbounded", "more flush requests than peers for one purge", cs, strconv.Itoa(len(ms)), "<= "+strconv.Itoa(cs.peerRows()))
@@ -699,6 +779,9 @@ func (e *c29Env) run(cs *c29Case) {
 
 			e.stats.Add("requests", len(ms))
 			recorded = append(recorded, ms...)
+
+		case "burst":
+			e.burst(cs, op, &recorded)
 
 		case "all":
 			ids := []int{}
@@ -797,6 +880,158 @@ func (e *c29Env) run(cs *c29Case) {
 
 		NodeID = c29NodeName(cs.Self)
 	}
+}
+
+// parkPeer: the peer (index into cs.Rows = index of its recorder) at which a broadcast of node cs.Self
+// comes to rest while the gate is shut: the first destination in join order whose endpoint is a
+// "gate" (-1 if the node broadcasts to no such peer). Decided on the case specification alone.
+func (cs *c29Case) parkPeer() int {
+	if _, _, silent := cs.expectedDest(true); silent {
+		return -1
+	}
+
+	best := -1
+
+	for i, r := range cs.Rows {
+		if r.Beh == "gate" && r.State == "active" && r.Name == cs.Cluster && r.ID != cs.Self &&
+			(best < 0 || r.Joined < cs.Rows[best].Joined) {
+			best = i
+		}
+	}
+
+	return best
+}
+
+// burst: op.N Purge calls of the same cache on the node; from the second on they are issued while
+// the broadcast of the first is still in progress (parked at a peer that sits on its request), after
+// the peers that broadcast has already served had time to reload the cache.
+//
+// Oracle (needs no model, holds for EVERY interleaving of the hook goroutines): for every purge j
+// of the burst and every active peer d of the node whose endpoint is up, d RECEIVES a flush request
+// for that cache after purge j was issued. (A request that arrived before the purge was issued
+// cannot have made the peer discard what it loaded since.)
+func (e *c29Env) burst(cs *c29Case, op *c29Op, recorded *[]c29Msg) {
+	c, n := op.Cache, min(max(op.N, 2), 6)
+	witness := c + 100000
+	live, _, silent := cs.expectedDest(true)
+	park := cs.parkPeer()
+
+	e.add(witness)
+
+	_ = c29Take()
+	base := c29HookStarted.Load()
+	expectHook := 0
+
+	if cs.On && cs.Hook {
+		expectHook = n
+	}
+
+	gate := make(chan struct{})
+	c29SetGate(gate)
+
+	marks := make([]int64, n)
+
+	for j := 0; j < n; j++ {
+		// the data changed again: whoever had discarded the cache has reloaded it by now (the
+		// origin for real; Row%4 == 3: the origin never holds it — it must broadcast all the same)
+		if op.Row%4 != 3 {
+			e.add(c)
+		}
+
+		marks[j] = c29SeqNow()
+
+		caches.Purge(c)
+
+		if park >= 0 {
+			limit := 20 * time.Millisecond
+			if j == 0 && !c29Slow.Load() {
+				limit = 5 * time.Second
+			}
+
+			if !c29WaitParked(park, j+1, limit) && j == 0 {
+				c29Slow.Store(true)
+			}
+		}
+	}
+
+	close(gate)
+	c29SetGate(nil)
+
+	fired := c29Settle(base, expectHook)
+	ms := e.decode(c29Take())
+	disc := c29CachingActive() && caches.Size(c) == 0
+
+	in := fmt.Sprintf("burst %d %s %s %s %s %d %d %s", cs.Self, c29ClusterField(cs.Cluster), c29b(cs.DB), c29b(cs.Hook),
+		c29b(cs.On), c, n, cs.rowsField())
+	e.emit(in, fmt.Sprintf("disc=%s fire=%d msgs=%s", c29b(disc), fired, c29ShowMsgs(ms)), "burst", !silent && park >= 0 && len(live) >= 2)
+
+	if !silent && park >= 0 && len(live) >= 2 {
+		e.stats.Inc("burst.parked")
+	}
+
+	e.judgeEach(cs, c, true, ms)
+
+	if len(ms) > n*cs.peerRows() {
+		e.fail("unbounded", "more flush requests than purges × peers for a burst of purges", cs, strconv.Itoa(len(ms)), "<= "+strconv.Itoa(n*cs.peerRows()))
+	}
+
+	arrivals := map[int][]int64{}
+	for _, m := range ms {
+		arrivals[m.Dest] = append(arrivals[m.Dest], m.Raw.Seq)
+	}
+
+	show := func() string {
+		parts := []string{fmt.Sprintf("purges issued after arrival no. %v", marks)}
+		for _, d := range live {
+			sort.Slice(arrivals[d], func(i, j int) bool { return arrivals[d][i] < arrivals[d][j] })
+			parts = append(parts, fmt.Sprintf("n%d received its requests as arrival no. %v", d, arrivals[d]))
+		}
+
+		return strings.Join(parts, "; ")
+	}
+
+	if !silent {
+	judged:
+		for _, d := range live {
+			if len(arrivals[d]) > n {
+				e.fail("duplicate-flush", "an active peer received more flush requests than there were purges", cs, show(), fmt.Sprintf("%d requests to n%d", n, d))
+			}
+
+			for j := 0; j < n; j++ {
+				later := 0
+
+				for _, sq := range arrivals[d] {
+					if sq > marks[j] {
+						later++
+					}
+				}
+
+				if later == 0 {
+					e.fail("overlapping-purge-not-announced", fmt.Sprintf("purge no. %d of %d purges of cache %d was issued while the broadcast of an earlier purge of that cache "+
+						"was still in progress, and active peer n%d (endpoint up) received NO flush request after it was issued: whatever the peer loaded "+
+						"since its last flush stays in its cache (every purge must reach every active peer)", j+1, n, c, d),
+						cs, show(), fmt.Sprintf("a flush request for cache %d arriving at n%d after purge no. %d was issued", c, d, j+1))
+
+					break judged
+				}
+			}
+		}
+	}
+
+	if cs.On && !disc {
+		e.fail("local-not-discarded", "the purged cache is still populated on the origin after a burst of purges", cs, strconv.Itoa(caches.Size(c)), "0")
+	}
+
+	if cs.On && caches.Size(witness) != 1 {
+		e.fail("collateral-purge", "a purge of one cache discarded another cache", cs, "", "")
+	}
+
+	if fired != expectHook {
+		e.fail("hook-count", "OnPurge fired a different number of times than one per originated purge (burst of purges of one cache)", cs, strconv.Itoa(fired), strconv.Itoa(expectHook))
+	}
+
+	e.stats.Add("requests", len(ms))
+	*recorded = append(*recorded, ms...)
 }
 
 // c29AuthFor builds the Authorization header of a generated flush request.
@@ -1103,6 +1338,57 @@ func c29GenSlowCase(r *rand.Rand) c29Case {
 	return cs
 }
 
+// c29GenBurstCase: a random table in which some rows (mostly active peers of the node, at random places in the
+// join order; sometimes rows the node does not broadcast to) point at an endpoint that sits on its request while
+// the burst is issued; 2-4 purges of one cache per burst, sometimes preceded by a state flip or a plain purge.
+func c29GenBurstCase(r *rand.Rand) c29Case {
+	cs := c29GenConfig(r)
+	cs.Rows = c29GenRows(r, cs.Self, cs.Cluster, 7)
+	cs.Replay = true
+
+	home := max(cs.Cluster, 1)
+	cand := []int{}
+
+	for i, row := range cs.Rows {
+		if row.ID != cs.Self {
+			cand = append(cand, i)
+		}
+	}
+
+	r.Shuffle(len(cand), func(i, j int) { cand[i], cand[j] = cand[j], cand[i] })
+
+	gates := 1 + r.Intn(2)
+	if r.Intn(6) == 0 {
+		gates = 0
+	}
+
+	for k := 0; k < gates && k < len(cand); k++ {
+		row := &cs.Rows[cand[k]]
+		row.Beh = "gate"
+
+		if r.Intn(4) != 0 {
+			row.State, row.Name = "active", home
+		}
+	}
+
+	for i, nb := 0, 1+r.Intn(2); i < nb; i++ {
+		c := c29CacheIDs[r.Intn(len(c29CacheIDs))]
+
+		switch r.Intn(6) {
+		case 0:
+			if len(cs.Rows) > 0 {
+				cs.Ops = append(cs.Ops, c29Op{Kind: "flip", Row: r.Intn(len(cs.Rows)), State: c29States[r.Intn(3)]})
+			}
+		case 1:
+			cs.Ops = append(cs.Ops, c29Op{Kind: "purge", Cache: c, Row: r.Intn(8)})
+		}
+
+		cs.Ops = append(cs.Ops, c29Op{Kind: "burst", Cache: c, N: 2 + r.Intn(3), Row: r.Intn(8)})
+	}
+
+	return cs
+}
+
 var c29HopValues = []int{-7, -1, 0, 1, 1, 1, 2, 3, 4, 4, 5, 5, 6, 100, 1 << 40}
 
 func c29GenFlushSpec(r *rand.Rand, cs *c29Case) *c29FlushSpec {
@@ -1225,6 +1511,59 @@ func c29Corpus() []c29Case {
 	c.Rows = []c29Row{act(0, 1, "ok", 0), act(1, 1, "hold1750", 1), act(2, 1, "hold1750", 2), act(3, 1, "hold1750", 3), act(4, 1, "ok", 4), act(5, 1, "ok", 5)}
 	c.Ops = []c29Op{{Kind: "purge", Cache: 7}}
 	out = append(out, c)
+
+	// OVERLAPPING purges of one cache. A fast peer, then a peer that sits on its request, then a fast peer:
+	// the first purge's broadcast serves n1 and comes to rest at n2; the second purge is issued then
+	// (n1 may have reloaded the cache in between): n1, n2 and n3 must each be told about it as well.
+	c = full
+	c.Rows = []c29Row{act(0, 1, "ok", 0), act(1, 1, "ok", 1), act(2, 1, "gate", 2), act(3, 1, "ok", 3)}
+	c.Ops = []c29Op{{Kind: "burst", Cache: 1, N: 2}}
+	out = append(out, c)
+
+	// the sitting peer first in join order, three purges, the cache absent on the origin; then the same
+	// again (nothing of the first burst may linger), then an ordinary purge
+	c = full
+	c.Self = 4
+	c.Rows = []c29Row{act(2, 1, "gate", 0), act(4, 1, "ok", 1), act(1, 1, "ok", 2), act(3, 1, "500", 3), act(5, 1, "dead", 4), act(6, 1, "ok", 5),
+		{ID: 7, Name: 1, State: "inactive", Beh: "ok", Joined: 6}, act(8, 2, "ok", 7)}
+	c.Ops = []c29Op{{Kind: "burst", Cache: 5, N: 3, Row: 3}, {Kind: "burst", Cache: 5, N: 2}, {Kind: "purge", Cache: 5}}
+	out = append(out, c)
+
+	// two sitting peers among failing ones, four purges; a burst of another cache; PurgeAll afterwards
+	c = full
+	c.Rows = []c29Row{act(1, 1, "hangup", 0), act(2, 1, "ok", 1), act(3, 1, "gate", 2), act(0, 1, "ok", 3), act(4, 1, "401", 4), act(5, 1, "gate", 5), act(6, 1, "ok", 6)}
+	c.Fill = []int{2, 9}
+	c.Ops = []c29Op{{Kind: "burst", Cache: 9, N: 4}, {Kind: "burst", Cache: 2, N: 2}, {Kind: "all"}}
+	out = append(out, c)
+
+	// no sitting peer (purges back to back, whatever interleaving results); the sitting peer inactive / in another
+	// cluster; and nodes that must stay silent
+	c = full
+	c.Rows = []c29Row{act(0, 1, "ok", 0), act(1, 1, "ok", 1), act(2, 1, "ok", 2)}
+	c.Ops = []c29Op{{Kind: "burst", Cache: 3, N: 4}}
+	out = append(out, c)
+
+	c = full
+	c.Rows = []c29Row{act(0, 1, "ok", 0), {ID: 1, Name: 1, State: "removed", Beh: "gate", Joined: 1}, act(2, 2, "gate", 2), act(3, 1, "ok", 3)}
+	c.Ops = []c29Op{{Kind: "burst", Cache: 3, N: 2}, {Kind: "flip", Row: 1, State: "active"}, {Kind: "burst", Cache: 3, N: 2}}
+	out = append(out, c)
+
+	for k := 0; k < 3; k++ {
+		c = full
+		c.Rows = []c29Row{act(0, 1, "ok", 0), act(1, 1, "gate", 1), act(2, 1, "ok", 2)}
+		c.Ops = []c29Op{{Kind: "burst", Cache: 2, N: 2}}
+
+		switch k {
+		case 0:
+			c.Cluster = 0
+		case 1:
+			c.Hook = false
+		case 2:
+			c.On = false
+		}
+
+		out = append(out, c)
+	}
 
 	// inactive, removed, oddly spelled and foreign rows; own row marked removed
 	c = full
@@ -1405,6 +1744,14 @@ func TestVerifC29(t *testing.T) {
 	for i, n := 0, verifh.N(400, 5000); i < n; i++ {
 		cs := c29GenPurgeCase(rp)
 		e.run(&cs)
+	}
+
+	// overlapping purges of one cache (a peer sits on its request while the rest of the burst is issued)
+	rb := verifh.Rand(29029)
+	for i, n := 0, verifh.N(60, 800); i < n; i++ {
+		cs := c29GenBurstCase(rb)
+		e.run(&cs)
+		e.stats.Inc("burstcases")
 	}
 
 	// slow peers at random places (real seconds each: thorough tier only; the corpus has the two fixed ones)
